@@ -93,6 +93,29 @@ func (h *rec) ComStmtExecute(ctx context.Context, c *mysql.Conn, p *mysql.Prepar
 	return err
 }
 
+// smallLn accepts connections with a small kernel send buffer, so that a result larger than a few kilobytes keeps
+// the server inside its write until the client reads (slow or small-windowed clients are ordinary TCP behaviour).
+type smallLn struct{ net.Listener }
+
+func (l smallLn) Accept() (net.Conn, error) {
+	c, err := l.Listener.Accept()
+	if tc, ok := c.(*net.TCPConn); ok && err == nil {
+		_ = tc.SetWriteBuffer(4096)
+	}
+	return c, err
+}
+
+func init() {
+	gomysql.RegisterDialContext("tcpsmall", func(ctx context.Context, addr string) (net.Conn, error) {
+		var d net.Dialer
+		c, err := d.DialContext(ctx, "tcp", addr)
+		if tc, ok := c.(*net.TCPConn); ok && err == nil {
+			_ = tc.SetReadBuffer(4096)
+		}
+		return c, err
+	})
+}
+
 // ---------- cases ----------
 
 type caseT struct {
@@ -337,7 +360,7 @@ func soakFor(r *lib.RNG, k int) caseT {
 	if r.Chance(1, 2) {
 		// wide rows: the trailing batch is larger than the connection's write buffer, and the client is slow to
 		// read, so the server is still writing it while other connections run
-		cols = fmt.Sprintf("id, REPEAT(tag, %d) AS wide, u, tag", r.Range(20, 70))
+		cols = fmt.Sprintf("id, REPEAT(tag, %d) AS wide, u, tag", r.Range(4, 24))
 		n = r.Range(60, 127)
 		cs.Slow = r.Range(200, 2500)
 	}
@@ -591,7 +614,7 @@ func main() {
 			panic(err)
 		}
 		h := &rec{log: map[uint32][][]int{}}
-		cfg := server.Config{Protocol: "tcp", Address: ln.Addr().String(), Listener: ln}
+		cfg := server.Config{Protocol: "tcp", Address: ln.Addr().String(), Listener: smallLn{ln}}
 		srv, err := server.NewServerWithHandler(cfg, e.Engine, gsql.NewContext, memory.NewSessionBuilder(e.Pro), nil,
 			func(inner mysql.Handler) (mysql.Handler, error) { h.Handler = inner; return h, nil })
 		if err != nil {
@@ -599,7 +622,7 @@ func main() {
 		}
 		go func() { _ = srv.Start() }()
 		defer srv.Close()
-		dsn := fmt.Sprintf("root:@tcp(%s)/db?interpolateParams=false", ln.Addr().String())
+		dsn := fmt.Sprintf("root:@tcpsmall(%s)/db?interpolateParams=false", ln.Addr().String())
 		db, err := sql.Open("mysql", dsn)
 		if err != nil {
 			panic(err)
